@@ -25,5 +25,11 @@ Print Assumptions C12_defaults.
 
 (* reserved bits are never changed by in-range writes: every setter leaves all bits outside its field unchanged (C11-c), and the
    reserved words are disjoint from every field of the table *)
+(* the payload-level API (CanPayload::getId, LinPayload::setFlag, TECMP::CaptureModulePayload::getSerialNumber ... - about 160 wrappers in
+   the current sources) is, wrapper by wrapper, a pure forwarder to the Header accessor of the same name *)
+Theorem C12_wrappers_forward_to_the_header_accessors : wrappers_ok = true.
+Proof. vm_compute. reflexivity. Qed.
+Print Assumptions C12_wrappers_forward_to_the_header_accessors.
+
 Example C12_nonvacuous : (300 <? Z.of_nat (List.length (filter is_layout_ob all_obs))) = true.
 Proof. vm_compute. reflexivity. Qed.
